@@ -7,6 +7,11 @@ ROOT=$(cd "$(dirname "$0")/.." && pwd)
 name=$1; wt=$2; prop=$3; shift 3
 set -u
 T=$(mktemp -d /tmp/_se_XXXXXX)      # private scratch: two evaluations may run side by side
+if [ -n "${SKIP_CONFIRM:-}" ]; then
+  # second evaluation of a change already confirmed and kept: take the kept patch, leave the scratch worktree alone
+  while [ ! -s /verif/seeded/$name/patch.diff ]; do sleep 10; done
+  cp /verif/seeded/$name/patch.diff $T/seed.diff
+else
 cd "$wt" || exit 2
 git diff -- src cmake > $T/seed.diff
 [ -s $T/seed.diff ] || cp patch.diff $T/seed.diff
@@ -17,6 +22,7 @@ git checkout -- src cmake
 echo "== demo without the change"; PYTHONPATH=$wt/src /venv/bin/python -W ignore $demo > $T/demo_without.txt 2>&1; echo "exit=$?"; tail -2 $T/demo_without.txt
 git apply $T/seed.diff
 mkdir -p /verif/seeded/$name && cp $T/seed.diff /verif/seeded/$name/patch.diff && cp $demo /verif/seeded/$name/
+fi
 cd "$ROOT"
 # SEED_REPO: scratch worktree of /repo HEAD to apply the change in (default: /repo itself, as the brief prescribes)
 R=${SEED_REPO:-/repo}
